@@ -967,7 +967,12 @@ func (r *Raft) sendAppendEntriesToPeers() {
 		r.tryApplyReadOnlyOperations()
 	}
 
-	numResponses := 1
+	// Leadership is confirmed by a majority of the voting members: this node's own
+	// confirmation counts only if it is a voter itself.
+	numResponses := 0
+	if r.isVoter(r.id) {
+		numResponses = 1
+	}
 	for id, address := range r.configuration.Members {
 		if id != r.id {
 			go r.sendAppendEntries(id, address, &numResponses)
@@ -1049,7 +1054,7 @@ func (r *Raft) sendAppendEntries(id string, address string, numResponses *int) {
 
 	// If the majority of cluster acknowledges the request, this node is a legitimate leader.
 	// Try to apply pending read-only operations.
-	if numResponses != nil {
+	if numResponses != nil && r.isVoter(id) {
 		*numResponses += 1
 		if r.hasQuorum(*numResponses) {
 			r.tryApplyReadOnlyOperations()
